@@ -100,8 +100,9 @@ def run_one(ck, prog):
         ck.ob("C15.1", f"{label}|eintr-never-ends-the-transfer", bool(retry) and not ends, fn=fname, site=ctx.site(cb),
               detail="after EINTR the function can return without repeating the call: an interrupted read looks like end-of-stream (Ok with only the bytes so far), an interrupted write like completion")
         cut = {(e.src, e.dst) for e in tr}
+        from ..engine import pathsens
         for x in errs:
-            r = cfg.reachable_from(x.dst, avoid_edges=cut)
+            r = pathsens.reachable(ctx, x.dst, avoid_edges=cut, via_edge=(x.src, x.dst))
             ck.ob("C15.1", f"{label}|retry-only-on-eintr", cb not in r, fn=fname, site=ctx.site(cb), detail="after an error other than EINTR the call is repeated (the error is swallowed)")
             ck.ob("C15.1", f"{label}|other-errors-returned", any(rb in r for rb in cfg.return_blocks()), fn=fname, detail="errors other than EINTR must be returned")
         # the returned error is the call's error
@@ -115,6 +116,11 @@ def run_one(ck, prog):
                             ev = ctx.prov.operand(s["rv"]["ops"][0], (b, i))
                             if mentions(ev, ctx.prov, lambda z: z[0] == "call" and z[3] == cb):
                                 same = True
+                    # ... or handed on whole: `other => return other` followed by `?` (from_residual of the call's own result)
+                    tb = cfg.term(b)
+                    if tb["k"] == "call" and tb["dst"]["l"] == 0 and (tb.get("callee") or "").endswith("FromResidual::from_residual") and \
+                            mentions(ctx.args(b)[0], ctx.prov, lambda z: z[0] == "call" and z[3] == cb):
+                        same = True
                 ck.ob("C15.1", f"{label}|same-error-surfaced", same, fn=fname, detail="the error returned must be the reader's/writer's own error")
     ck.floor("C15.1", "retry loops", n_loops, 4 if ck.config != "C" else 2)
 
